@@ -48,6 +48,7 @@ func init() {
 			checkC19Duplicates(c, budget(c.Tier, 300, 6000))
 			checkC19Malformed(c, budget(c.Tier, 300, 6000))
 			checkC19Exotic(c, budget(c.Tier, 300, 3000))
+			checkC19Namespaces(c, budget(c.Tier, 400, 10000))
 		}}
 	props["C02"] = propRun{
 		rule: "(a) option tokens in all spellings over ASCII / multi-byte / invalid names and arbitrary values through the splitting functions; (b) metamorphic groups: one generated declaration and surrounding argument vector, one occurrence of one option rendered as -xV, -x=V, -x V, --name=V, --name V and quoted forms; (c) cluster groups -abc [V] / -a -b -c [V] / -ab -c [V] with non-ASCII flags; (d) random whole-parser cases with 40% non-ASCII names; distinct per token / group",
@@ -80,6 +81,7 @@ func init() {
 			p.ArgvLen = 6
 			runParseCases(c, budget(c.Tier, 1500, 100000), p, func(cr *CaseResult) { oracleNoPanic(c, cr) })
 			checkC11Values(c, budget(c.Tier, 2500, 150000))
+			checkC11EnvList(c, budget(c.Tier, 800, 30000))
 		}}
 }
 
@@ -188,9 +190,10 @@ func init() {
 	}, oracleNoPanic, oracleExec, oracleConserved)
 	{
 		base := props["C09"]
-		props["C09"] = propRun{rule: base.rule + "; dispatch stage: command trees with SubcommandsOptional set independently on the parser and every command, executable commands at every level, argument vector = a path of command words stopping at a random depth; expected outcome stated from the public model (ErrCommandRequired and nothing runs, or exactly one dispatch of the innermost command)", run: func(c *Ctx) {
+		props["C09"] = propRun{rule: base.rule + "; dispatch stage: command trees with SubcommandsOptional set independently on the parser and every command, executable commands at every level, argument vector = a path of command words stopping at a random depth; expected outcome stated from the public model (ErrCommandRequired and nothing runs, or exactly one dispatch of the innermost command); bad-positional stage: a word that the positional field cannot take, reaching it as a plain word, behind the terminator, behind the first plain word under PassAfterNonOption or as an unknown option under IgnoreUnknown: an error and no CommandHandler call", run: func(c *Ctx) {
 			base.run(c)
 			checkC09Dispatch(c, budget(c.Tier, 1200, 50000))
+			checkC09BadPositional(c, budget(c.Tier, 400, 10000))
 		}}
 	}
 	parseProp("C10", caseRule+"emphasis: positional arguments of all kinds interleaved with options and the terminator", 2500, 100000, func(p *Profile) {
@@ -297,6 +300,7 @@ func init() {
 		rule: "generated declarations with pre-populated multi-entry maps, one key set from several INI sections, then ini read, parse, help, man, ini write and completion; every case is rebuilt and re-run 8 (quick) / 32 (thorough) times in-process and all observations must be byte-identical (Go randomises every map range); distinct per case",
 		run: func(c *Ctx) {
 			checkC15(c, budget(c.Tier, 150, 6000), budget(c.Tier, 8, 32))
+			checkC15Invalid(c, budget(c.Tier, 150, 6000), budget(c.Tier, 8, 32))
 		}}
 }
 
